@@ -352,6 +352,43 @@ impl Drop for OTry {
     }
 }
 
+/// a future with a zero-sized output (for the joins): the output is registered as a plain token, the value itself is `()`
+pub struct ZFut {
+    pub id: u32,
+    _pin: PhantomPinned,
+}
+impl ZFut {
+    pub fn new(id: u32) -> Self {
+        let _s = Suspend::new();
+        with(|w| w.alive.insert(id));
+        ZFut { id, _pin: PhantomPinned }
+    }
+}
+impl Future for ZFut {
+    type Output = ();
+    fn poll(self: Pin<&mut Self>, cx: &mut Context<'_>) -> Poll<()> {
+        let a = addr_of_self!(self);
+        let (resp, _) = child_poll(self.id, a, cx, false);
+        let _s = Suspend::new();
+        match resp.as_str() {
+            "R" | "X" => {
+                let _ = PTok::new(self.id as i64, 0);
+                log_cout(self.id, "R", 0);
+                Poll::Ready(())
+            }
+            _ => {
+                log_cout(self.id, "P", 0);
+                Poll::Pending
+            }
+        }
+    }
+}
+impl Drop for ZFut {
+    fn drop(&mut self) {
+        log_cdrop(self.id, self as *const _ as usize);
+    }
+}
+
 /// a future with output `()` (for_each_concurrent); completion is logged as "E" (no output value)
 pub struct SUnit {
     pub id: u32,
